@@ -11,7 +11,13 @@ polylines.  This file does it for a **filled polygon**: the closed region that t
   `BoundaryMeets` — it contains a point of the closed boundary polyline (`polyTouches g (closeUp ring)`).
 * `ParityConst ring` — the one geometric fact used: along a closed segment that meets no edge of the
   ring the answer of `pointInRing` does not change (crossing parity only changes across the boundary).
-* `filled_connected` / `filled_flood_exact` — under `ParityConst ring`, every touched cell is reachable
+* `ParityConstAxis ring` — the same for axis-parallel segments only; this is all the flood argument uses,
+  and it is **proved for every ring** (`axis_parityConst`): horizontal moves keep each edge's `crossesRay`
+  value, vertical moves change it exactly when an end point lies in the swept band east of the segment, and
+  those changes pair up around the closed walk.  Hence `ring_filled_connected`, `ring_filled_flood_exact`:
+  **unconditional for arbitrary rings** (non-convex, self-intersecting, repeated vertices; the region is the
+  even–odd one the code's loop accepts).
+* `filled_connected` / `filled_flood_exact` — under `ParityConstAxis ring` (a fortiori `ParityConst ring`), every touched cell is reachable
   from the cell of the first vertex through touched (edge-)neighbours, and for every sound total pop
   schedule and fuel `≥ |ringBlock| + 1` the model's flood returns exactly `{cell | FilledMeets g ring cell}`.
   Proof: a touched cell either meets the boundary (`polyline_connected` links it to the start), or all
@@ -23,7 +29,10 @@ polylines.  This file does it for a **filled polygon**: the closed region that t
 * a computable touch test `filledTouchesC` (boundary polyline clipped against the box, or the box's
   lower-left corner in the closed polygon), proved equivalent to `FilledMeets` under `ParityConst`.
 
-Still a hypothesis for non-convex rings: `ParityConst` (statement and what is missing at the end).
+Not proved: `ParityConst` (segments of *arbitrary* direction) for non-convex rings.  It is no longer needed
+for C12 (the axis-parallel case suffices); the proof would repeat `vert_edge` with the band measured along
+the segment's direction, or derive it from direction-independence of the crossing parity
+(`parity_ray_independent` covers east/west only).
 -/
 namespace GV.FloodLat
 open GV.Flood GV.PipConvex
@@ -46,6 +55,15 @@ def SegAvoids (ring : List Pt) (p q : Pt) : Prop :=
     boundary -/
 def ParityConst (ring : List Pt) : Prop :=
   ∀ p q : Pt, SegAvoids ring p q → pointInRing p ring = pointInRing q ring
+
+/-- the same fact restricted to axis-parallel segments — all that the flood argument needs (a closed
+    cell box is convex, so two of its points are joined by a horizontal and a vertical segment inside
+    it); **proved for every ring** below (`axis_parityConst`) -/
+def ParityConstAxis (ring : List Pt) : Prop :=
+  ∀ p q : Pt, (p.1 = q.1 ∨ p.2 = q.2) → SegAvoids ring p q → pointInRing p ring = pointInRing q ring
+
+theorem ParityConst.axis {ring : List Pt} (h : ParityConst ring) : ParityConstAxis ring :=
+  fun p q _ hav => h p q hav
 
 /-- the touch predicate as a `Bool` function for the model (classical: the theorem is about the set) -/
 noncomputable def filledTouches (g : Grid) (ring : List Pt) (cell : Cell) : Bool :=
@@ -92,7 +110,7 @@ theorem off_of_not_boundary (g : Grid) (ring : List Pt) (cell : Cell) (h : ¬ Bo
 
 /-- **an interior cell is entirely inside**: a touched cell that does not meet the boundary has all the
     points of its closed box strictly inside the ring -/
-theorem interior_all (g : Grid) (ring : List Pt) (hpc : ParityConst ring) (cell : Cell)
+theorem interior_all (g : Grid) (ring : List Pt) (hpc : ParityConstAxis ring) (cell : Cell)
     (hf : FilledMeets g ring cell) (hb : ¬ BoundaryMeets g ring cell) (q : Pt)
     (hq : InBox g cell q.1 q.2) : pointInRing q ring = true := by
   obtain ⟨x, y, hin, hpip⟩ := hf
@@ -104,13 +122,20 @@ theorem interior_all (g : Grid) (ring : List Pt) (hpc : ParityConst ring) (cell 
       rw [hoff (x, y) hin e he] at hon
       exact absurd hon (by simp)
     · rw [GV.pointInRing_eq_spec]; exact h
-  rw [← hpc (x, y) q ?_]
-  · exact hp
-  · intro e he s s0 s1
-    exact hoff _ (inBox_lineAt g cell (x, y) q hin hq s0 s1) e he
+  have hm : InBox g cell q.1 y := ⟨hq.1, hq.2.1, hin.2.2.1, hin.2.2.2⟩
+  have h1 : pointInRing (x, y) ring = pointInRing ((q.1, y) : Pt) ring := by
+    apply hpc (x, y) (q.1, y) (Or.inr rfl)
+    intro e he s s0 s1
+    exact hoff _ (inBox_lineAt g cell (x, y) (q.1, y) hin hm s0 s1) e he
+  have h2 : pointInRing ((q.1, y) : Pt) ring = pointInRing q ring := by
+    apply hpc (q.1, y) q (Or.inl rfl)
+    intro e he s s0 s1
+    exact hoff _ (inBox_lineAt g cell (q.1, y) q hm hq s0 s1) e he
+  rw [← h2, ← h1]
+  exact hp
 
 /-- the computable test decides `FilledMeets` -/
-theorem filledTouchesC_iff (g : Grid) (ring : List Pt) (hpc : ParityConst ring) (cell : Cell) :
+theorem filledTouchesC_iff (g : Grid) (ring : List Pt) (hpc : ParityConstAxis ring) (cell : Cell) :
     filledTouchesC g ring cell = true ↔ FilledMeets g ring cell := by
   unfold filledTouchesC
   rw [Bool.or_eq_true]
@@ -126,7 +151,7 @@ theorem filledTouchesC_iff (g : Grid) (ring : List Pt) (hpc : ParityConst ring) 
     · exact Or.inr (pip_inclB_of_pip (interior_all g ring hpc cell hf hb (xlo g cell.1, ylo g cell.2) hcorner))
 
 /-- **one step west**: the west neighbour of a touched cell that does not meet the boundary is touched -/
-theorem filled_west (g : Grid) (ring : List Pt) (hpc : ParityConst ring) (i j : Int)
+theorem filled_west (g : Grid) (ring : List Pt) (hpc : ParityConstAxis ring) (i j : Int)
     (hf : FilledMeets g ring (i, j)) (hb : ¬ BoundaryMeets g ring (i, j)) :
     FilledMeets g ring (i - 1, j) := by
   have hcorner : InBox g (i, j) (xlo g i) (ylo g j) :=
@@ -159,7 +184,7 @@ theorem start_boundary (g : Grid) (v : Pt) (r : List Pt) :
 /-- **connectivity of the cells touched by a filled ring** (under `ParityConst`): every touched cell is
     reachable from the cell of the first vertex through touched neighbours.  `touches` is any `Bool`
     function deciding `FilledMeets` (`filledTouches`, `filledTouchesC`). -/
-theorem filled_connected (g : Grid) (v : Pt) (r : List Pt) (hpc : ParityConst (v :: r))
+theorem filled_connected (g : Grid) (v : Pt) (r : List Pt) (hpc : ParityConstAxis (v :: r))
     (touches : Cell → Bool) (ht : ∀ c, touches c = true ↔ FilledMeets g (v :: r) c) :
     ∀ cell, FilledMeets g (v :: r) cell → Reach nbrs8 touches (cellOf g v.1 v.2) cell := by
   have hbnd : ∀ cell, BoundaryMeets g (v :: r) cell → Reach nbrs8 touches (cellOf g v.1 v.2) cell := by
@@ -209,7 +234,7 @@ theorem filled_connected (g : Grid) (v : Pt) (r : List Pt) (hpc : ParityConst (v
     exact key (i - (⌈(x0 - g.x0) / g.w⌉ - 1)).toNat i j (by omega) hf
 
 /-- generic form of the exactness theorem: `touches` is any `Bool` function deciding `FilledMeets` -/
-theorem filled_flood_exact_of (g : Grid) (v : Pt) (r : List Pt) (hpc : ParityConst (v :: r))
+theorem filled_flood_exact_of (g : Grid) (v : Pt) (r : List Pt) (hpc : ParityConstAxis (v :: r))
     (touches : Cell → Bool) (ht : ∀ c, touches c = true ↔ FilledMeets g (v :: r) c)
     (pick : List Cell → Option Cell) (hp1 : PickSound pick) (hp2 : PickTotal pick)
     (fuel : Nat) (hf : (ringBlock g (v :: r)).length + 1 ≤ fuel) :
@@ -225,7 +250,7 @@ theorem filled_flood_exact_of (g : Grid) (v : Pt) (r : List Pt) (hpc : ParityCon
     fuel `≥ |ringBlock| + 1`, the model's flood started (as `_hash_polygon` does) from the cell of the
     first vertex terminates and returns exactly the cells whose closed box contains a point of the
     closed polygon — both inclusions, no connectivity hypothesis -/
-theorem filled_flood_exact (g : Grid) (v : Pt) (r : List Pt) (hpc : ParityConst (v :: r))
+theorem filled_flood_exact (g : Grid) (v : Pt) (r : List Pt) (hpc : ParityConstAxis (v :: r))
     (pick : List Cell → Option Cell) (hp1 : PickSound pick) (hp2 : PickTotal pick)
     (fuel : Nat) (hf : (ringBlock g (v :: r)).length + 1 ≤ fuel) :
     ∃ out, flood nbrs8 (filledTouches g (v :: r)) pick fuel (cellOf g v.1 v.2) = some out ∧
@@ -233,7 +258,7 @@ theorem filled_flood_exact (g : Grid) (v : Pt) (r : List Pt) (hpc : ParityConst 
   filled_flood_exact_of g v r hpc _ (filledTouches_iff g (v :: r)) pick hp1 hp2 fuel hf
 
 /-- the same with the computable touch test -/
-theorem filled_flood_exact_computable (g : Grid) (v : Pt) (r : List Pt) (hpc : ParityConst (v :: r))
+theorem filled_flood_exact_computable (g : Grid) (v : Pt) (r : List Pt) (hpc : ParityConstAxis (v :: r))
     (pick : List Cell → Option Cell) (hp1 : PickSound pick) (hp2 : PickTotal pick)
     (fuel : Nat) (hf : (ringBlock g (v :: r)).length + 1 ≤ fuel) :
     ∃ out, flood nbrs8 (filledTouchesC g (v :: r)) pick fuel (cellOf g v.1 v.2) = some out ∧
@@ -304,7 +329,7 @@ theorem convex_filled_flood_exact (g : Grid) (v : Pt) (r : List Pt) (h : StrictC
     ∃ out, flood nbrs8 (filledTouchesC g (v :: r)) pick fuel (cellOf g v.1 v.2) = some out ∧
       ∀ cell, cell ∈ out ↔
         ∃ x y : Rat, InBox g cell x y ∧ ∀ e ∈ ringEdges (v :: r), 0 ≤ pcross e ((x, y) : Pt) := by
-  obtain ⟨out, hout, hmem⟩ := filled_flood_exact_computable g v r (convex_parityConst _ h) pick hp1 hp2 fuel hf
+  obtain ⟨out, hout, hmem⟩ := filled_flood_exact_computable g v r (convex_parityConst _ h).axis pick hp1 hp2 fuel hf
   exact ⟨out, hout, fun cell => (hmem cell).trans (convex_filledMeets_iff g _ h cell)⟩
 
 /-- … and with the classical set-level touch function -/
@@ -313,7 +338,86 @@ theorem convex_filled_flood_exact_set (g : Grid) (v : Pt) (r : List Pt) (h : Str
     (fuel : Nat) (hf : (ringBlock g (v :: r)).length + 1 ≤ fuel) :
     ∃ out, flood nbrs8 (filledTouches g (v :: r)) pick fuel (cellOf g v.1 v.2) = some out ∧
       ∀ cell, cell ∈ out ↔ FilledMeets g (v :: r) cell :=
-  filled_flood_exact g v r (convex_parityConst _ h) pick hp1 hp2 fuel hf
+  filled_flood_exact g v r (convex_parityConst _ h).axis pick hp1 hp2 fuel hf
+
+/-! ## C2. `ParityConstAxis` proved for EVERY ring — the flood theorems become unconditional -/
+
+theorem segAvoids_symm {ring : List Pt} {p q : Pt} (h : SegAvoids ring p q) : SegAvoids ring q p := by
+  intro e he s s0 s1
+  rw [lineAt_rev]
+  exact h e he (1 - s) (by linarith) (by linarith)
+
+theorem vAvoid_of_seg {ring : List Pt} {x y y' : Rat}
+    (h : SegAvoids ring (x, y) (x, y')) : ∀ e ∈ ringEdges ring, VAvoid x y y' e := by
+  intro e he Y h1 h2
+  obtain ⟨s, s0, s1, hs⟩ := exists_lambda h1 h2
+  have := h e he s s0 s1
+  have hpt : lineAt ((x, y) : Pt) (x, y') s = (x, Y) := by
+    unfold lineAt
+    refine Prod.ext ?_ ?_
+    · simp
+    · exact hs
+  rwa [hpt] at this
+
+/-- **crossing parity only changes across the boundary** (axis-parallel moves, ANY ring — no
+    simplicity, no orientation, repeated vertices allowed): horizontal moves keep every edge's
+    `crossesRay` value (`horiz_edge`); along a vertical move the value of an edge changes exactly when
+    one of its end points lies in the swept band east of the segment (`vert_edge`), and these changes
+    pair up around the closed walk (`parity_path`) -/
+theorem axis_parityConst (ring : List Pt) : ParityConstAxis ring := by
+  intro p q hax hav
+  cases ring with
+  | nil => rfl
+  | cons v r =>
+    obtain ⟨x, y⟩ := p
+    obtain ⟨x', y'⟩ := q
+    rw [GV.pointInRing_eq_spec, GV.pointInRing_eq_spec]
+    rcases hax with hx | hy
+    · simp only at hx
+      subst hx
+      rcases le_total y y' with hyy | hyy
+      · exact insideEO_vert v r hyy (vAvoid_of_seg hav)
+      · exact (insideEO_vert v r hyy (vAvoid_of_seg (segAvoids_symm hav))).symm
+    · simp only at hy
+      subst hy
+      apply insideEO_horiz
+      intro e he s s0 s1
+      have := hav e he s s0 s1
+      have hpt : lineAt ((x, y) : Pt) (x', y) s = (x + s * (x' - x), y) := by
+        unfold lineAt
+        refine Prod.ext rfl ?_
+        simp
+      rwa [hpt] at this
+
+/-- the computable touch test decides `FilledMeets` for every ring -/
+theorem ring_filledTouchesC_iff (g : Grid) (ring : List Pt) (cell : Cell) :
+    filledTouchesC g ring cell = true ↔ FilledMeets g ring cell :=
+  filledTouchesC_iff g ring (axis_parityConst ring) cell
+
+/-- **connectivity of the cells touched by a filled ring, unconditional** (any ring, even–odd filling) -/
+theorem ring_filled_connected (g : Grid) (v : Pt) (r : List Pt) (cell : Cell)
+    (h : FilledMeets g (v :: r) cell) :
+    Reach nbrs8 (filledTouchesC g (v :: r)) (cellOf g v.1 v.2) cell :=
+  filled_connected g v r (axis_parityConst _) _ (ring_filledTouchesC_iff g (v :: r)) cell h
+
+/-- **C12 for a filled ring, unconditional**: for EVERY ring (convex or not, simple or not; the region
+    is the one the even–odd loop `pointInRing … true` accepts), every sound and total pop schedule and
+    every fuel `≥ |ringBlock| + 1`, the model's flood from the first vertex's cell returns exactly the
+    cells whose closed box contains a point of the closed region -/
+theorem ring_filled_flood_exact (g : Grid) (v : Pt) (r : List Pt)
+    (pick : List Cell → Option Cell) (hp1 : PickSound pick) (hp2 : PickTotal pick)
+    (fuel : Nat) (hf : (ringBlock g (v :: r)).length + 1 ≤ fuel) :
+    ∃ out, flood nbrs8 (filledTouchesC g (v :: r)) pick fuel (cellOf g v.1 v.2) = some out ∧
+      ∀ cell, cell ∈ out ↔ FilledMeets g (v :: r) cell :=
+  filled_flood_exact_computable g v r (axis_parityConst _) pick hp1 hp2 fuel hf
+
+/-- … with the classical set-level touch function -/
+theorem ring_filled_flood_exact_set (g : Grid) (v : Pt) (r : List Pt)
+    (pick : List Cell → Option Cell) (hp1 : PickSound pick) (hp2 : PickTotal pick)
+    (fuel : Nat) (hf : (ringBlock g (v :: r)).length + 1 ≤ fuel) :
+    ∃ out, flood nbrs8 (filledTouches g (v :: r)) pick fuel (cellOf g v.1 v.2) = some out ∧
+      ∀ cell, cell ∈ out ↔ FilledMeets g (v :: r) cell :=
+  filled_flood_exact g v r (axis_parityConst _) pick hp1 hp2 fuel hf
 
 /-! ## D. non-vacuity on concrete rationals -/
 
@@ -354,7 +458,7 @@ example : ∃ out, flood nbrs8 (filledTouchesC unitGrid pentagon) popLast 21 (ce
 example : ∀ cell, cell ∈ ([(2, 0), (3, 0), (3, 1), (3, 2), (2, 1), (2, 2), (2, 3), (1, 2), (1, 3), (0, 2), (-1, 1),
       (1, 0), (1, 1), (0, 1), (0, 0)] : List Cell) ↔ FilledMeets unitGrid pentagon cell := by
   obtain ⟨out, hout, hmem⟩ := filled_flood_exact_computable unitGrid (1/2, 1/4) _
-    (convex_parityConst pentagon (by decide +kernel)) popFirst popFirst_sound popFirst_total 21 (by decide +kernel)
+    (convex_parityConst pentagon (by decide +kernel)).axis popFirst popFirst_sound popFirst_total 21 (by decide +kernel)
   have hval : flood nbrs8 (filledTouchesC unitGrid pentagon) popFirst 21 (cellOf unitGrid (1/2) (1/4))
     = some [(2, 0), (3, 0), (3, 1), (3, 2), (2, 1), (2, 2), (2, 3), (1, 2), (1, 3), (0, 2), (-1, 1), (1, 0),
         (1, 1), (0, 1), (0, 0)] := by decide +kernel
@@ -367,5 +471,22 @@ example : StrictConvexCCW [(-3, 50), (11, 48), (5, 56)] ∧
     (flood nbrs8 (filledTouchesC geoGrid [(-3, 50), (11, 48), (5, 56)]) popFirst 10 (cellOf geoGrid (-3) 50)).map
       List.length = some 8 ∧ (ringBlock geoGrid [(-3, 50), (11, 48), (5, 56)]).length = 9 := by
   refine ⟨by decide +kernel, by decide +kernel, by decide +kernel⟩
+
+/-- a NON-convex ring (an "M" with the reflex vertex (2, 2)) through the unconditional theorem -/
+def mRing : List Pt := [(1/2, 1/2), (7/2, 1/2), (7/2, 7/2), (2, 2), (1/2, 7/2)]
+
+example : ¬ StrictConvexCCW mRing := by decide +kernel
+example : flood nbrs8 (filledTouchesC unitGrid mRing) popFirst 17 (cellOf unitGrid (1/2) (1/2))
+    = some [(0, 3), (0, 2), (1, 3), (1, 2), (3, 3), (2, 3), (2, 2), (3, 2), (3, 0), (3, 1), (2, 0), (2, 1), (1, 0),
+        (1, 1), (0, 1), (0, 0)] := by decide +kernel
+example : ∃ out, flood nbrs8 (filledTouchesC unitGrid mRing) popLast 17 (cellOf unitGrid (1/2) (1/2)) = some out ∧
+    ∀ cell, cell ∈ out ↔ FilledMeets unitGrid mRing cell :=
+  ring_filled_flood_exact unitGrid (1/2, 1/2) _ popLast popLast_sound popLast_total 17 (by decide +kernel)
+
+/-- a self-intersecting ring (bow-tie): the theorem still applies — the region is the even–odd one -/
+example : ∃ out, flood nbrs8 (filledTouchesC unitGrid [(1/2, 1/2), (5/2, 5/2), (5/2, 1/2), (1/2, 5/2)]) popFirst 10
+      (cellOf unitGrid (1/2) (1/2)) = some out ∧
+    ∀ cell, cell ∈ out ↔ FilledMeets unitGrid [(1/2, 1/2), (5/2, 5/2), (5/2, 1/2), (1/2, 5/2)] cell :=
+  ring_filled_flood_exact unitGrid (1/2, 1/2) _ popFirst popFirst_sound popFirst_total 10 (by decide +kernel)
 
 end GV.FloodLat
